@@ -106,3 +106,12 @@ P['C15'] = {
     'level_note': 'Subset only: AuDecode header arithmetic, HdlcDeframer::update_state, wpcr, sigmf, StreamToPdu, symbol sync, zero crossing are not decided.',
     'not_covered': ['AuDecode', 'HdlcDeframer::work/update_state', 'wpcr', 'sigmf', 'StreamToPdu', 'SymbolSync', 'ZeroCrossing', 'TcpSource'] , 'assumptions': _BLOCK_ASSUME,
 }
+
+P['C17'] = {
+    'units': ['fsink'],
+    'technique': 'Verus postcondition (mode table) on the real FileSink::new / NoCopyFileSink::new builder chains against a trusted open(2) specification',
+    'level_text': 'Open-mode half only: for every initial path state {absent, regular file with any content} and each mode, the result of the real builder chain equals the documented table (create fails iff the file exists; overwrite leaves empty content to write into; append keeps content, positions at end, creates if absent); open errors for other states are passed on by `?`. The durability half (consumed means on disk, crash points) is NOT decided.',
+    'level_note': 'Trusted: the POSIX open(2)/OpenOptions flag semantics written in units/fsink/unit.vx. work() (BufWriter, closure-based serialisation, flush-before-consume order, SIGKILL) is outside Verus\' subset and Kani cannot run the block.',
+    'not_covered': ['FileSink::work / NoCopyFileSink::work: write_all + flush before consume (durability, crash points)', 'directory / unwritable path states beyond "the open error is returned"'],
+    'assumptions': ['open(2) shim: fails iff (create_new and exists) or (neither create nor create_new and absent); truncate empties; append positions at end', 'File::create == write+create+truncate'],
+}
